@@ -142,6 +142,16 @@ NoLateReply(H, snt, dl) ==
     \A j \in DOMAIN snt : \A i \in AnswersOf(H, snt, dl, j) :
         (j < Len(snt) /\ ~(PktOf(H, dl[i]).kind = "tcp" /\ Caveat(V(H), PktOf(H, dl[i])))) => dl[i].n < snt[j + 1].n
 
+\* serial engine: the next probe leaves only after the whole per-TTL timeout, unless a packet that answers a probe of the run (the
+\* current one, or an earlier one whose reply is late) was delivered in between - unrelated traffic never shortens the listening time
+SerialListens(H, snt, dl) ==
+    (IsSerial(V(H)) /\ Len(H.flt) = 0) =>
+    \A j \in 1..(Len(snt) - 1) :
+        \/ snt[j + 1].t >= snt[j].t + H.par.timeout_us - (IF H.par.realclock THEN 5000 ELSE 0)
+        \/ \E i \in DOMAIN dl : /\ dl[i].n > snt[j].n /\ dl[i].n < snt[j + 1].n
+                                 /\ \E jj \in 1..j : \/ Answers(V(H), H.par.strict, snt[jj].p, PktOf(H, dl[i]))
+                                                      \/ (Caveat(V(H), PktOf(H, dl[i])) /\ Direct(V(H), snt[jj].p, PktOf(H, dl[i])))
+
 HopAt(hops, ttl) == IF \E k \in DOMAIN hops : hops[k].ttl = ttl
                     THEN hops[CHOOSE k \in DOMAIN hops : hops[k].ttl = ttl]
                     ELSE [ttl |-> ttl, addr |-> "none", rtt_us |-> 0, dest |-> FALSE]
@@ -176,13 +186,14 @@ DestTTLs(H, snt, dl) ==
                               /\ InWindow(H, snt, dl, j, i)}}
 
 C02_run(H, snt, dl, hops) ==
-    (IsSerial(V(H)) => NoLateReply(H, snt, dl)) =>
+    SerialListens(H, snt, dl) /\
+    ((IsSerial(V(H)) => NoLateReply(H, snt, dl)) =>
     \A j \in DOMAIN snt :
         LET A == {i \in AnswersOf(H, snt, dl, j) :
                      InCatalogue(V(H), PktOf(H, dl[i])) /\ InWindow(H, snt, dl, j, i)}
             D == DestTTLs(H, snt, dl)
         IN (A # {} /\ (D = {} \/ snt[j].ttl <= Min(D))) =>
-              \E i \in A : HopAt(hops, snt[j].ttl).addr = PktOf(H, dl[i]).src
+              \E i \in A : HopAt(hops, snt[j].ttl).addr = PktOf(H, dl[i]).src)
 
 (***************************************************************************)
 (* C03  Path shape                                                         *)
@@ -205,6 +216,7 @@ DestAnswered(H, snt, dl, t) ==
            \/ (Caveat(V(H), PktOf(H, dl[i])) /\ \E kk \in 1..j : Direct(V(H), snt[kk].p, PktOf(H, dl[i])) /\ DestForm(V(H), snt[kk].p, PktOf(H, dl[i])))
 C03_run(H, snt, dl, hops) ==
     /\ Shape(H.par, hops)
+    /\ SerialListens(H, snt, dl)
     /\ LET D == DestTTLs(H, snt, dl)
        IN ((IsSerial(V(H)) => NoLateReply(H, snt, dl)) /\ D # {}) => Len(hops) <= Min(D) - H.par.min + 1
     /\ Len(hops) < H.par.max - H.par.min + 1 => DestAnswered(H, snt, dl, H.par.min + Len(hops) - 1)
@@ -255,8 +267,10 @@ C05_run(H, snt, dl, hops) ==
         /\ h.addr # "" =>
              \E j \in DOMAIN snt : snt[j].ttl = h.ttl /\
                LET A == {i \in DOMAIN dl : dl[i].n > snt[j].n /\ PktOf(H, dl[i]).src = h.addr
-                            /\ (Answers(V(H), H.par.strict, snt[j].p, PktOf(H, dl[i]))
-                                \/ (Caveat(V(H), PktOf(H, dl[i])) /\ \E kk \in 1..j : Direct(V(H), snt[kk].p, PktOf(H, dl[i]))))}
+                            /\ (((PktOf(H, dl[i]).kind # "tcp" \/ ~Caveat(V(H), PktOf(H, dl[i]))) /\ Answers(V(H), H.par.strict, snt[j].p, PktOf(H, dl[i])))
+                                \* (caveat of C01: a direct TCP reply without per-probe identifier is credited to the probe sent LAST before it)
+                                \/ (PktOf(H, dl[i]).kind = "tcp" /\ Caveat(V(H), PktOf(H, dl[i])) /\ (\E kk \in 1..j : Direct(V(H), snt[kk].p, PktOf(H, dl[i])))
+                                    /\ \A j2 \in DOMAIN snt : snt[j2].n < dl[i].n => j2 <= j))}
                    \* the first accepted reply: the earliest one, or the earliest destination-form one when it
                    \* replaced a non-destination reply
                    first == CHOOSE i \in A : \A i2 \in A : dl[i].n <= dl[i2].n
@@ -488,6 +502,17 @@ C10_req(H) ==
                                   /\ \A i \in FiredFailing(H) : H.flt[i].class \in {"fatal", "typed"} => (HasCause(H.out, CauseName(H.flt[i])) \/ HasCause(H.out, H.flt[i].op))))
     /\ H.out.goroutines = 0
     /\ H.out.opened = H.out.closed_once /\ Len(H.out.bad_handles) = 0
+
+\* C04 at request level (library results; scripted paths on which only the target sends proof-of-arrival replies)
+C04_req(H) ==
+    H.out.ok => \A r \in DOMAIN H.out.runs : \A k \in DOMAIN H.out.runs[r].hops :
+                   LET h == H.out.runs[r].hops[k] IN h.addr # "" => (h.dest <=> h.addr = H.par.target)
+
+\* C18 at request level: the public address in the answer is what discovery yields when it is given the time IT needs (the caller's
+\* context, nothing shorter): a provider that answers after 2.5 s still answers; a failing discovery leaves the field empty
+C18_req(H) ==
+    H.out.ok => /\ (H.par.pub_mode \in {"ok", "slow"} => H.out.pub = "203.0.113.77")
+                /\ (H.par.pub_mode = "fail" => H.out.pub = "")
 
 \* C19: parameters honoured exactly or rejected (expect = the meaning assigned by GenRun!Expect)
 C19_run(H) ==
